@@ -1,6 +1,6 @@
 (* C05 — Version ranges mean what they say; conflict means a shared version.
    Statements only; each closed by [exact] of a lemma proved in theories/. *)
-From DS Require Import Base Versions VersionsProofs Semver SemverProofs.
+From DS Require Import Base Versions VersionsProofs Semver SemverProofs Router RouterSpec RouterProofs Pct Utf8 PathNorm Route Pipeline PipelineProofs.
 
 Section C05.
   (* any version type whose comparison is a total order with a least element:
@@ -68,6 +68,41 @@ Section C05.
     (exists v, extract_version V cmp parse max h = Ok v) \/
     extract_version V cmp parse max h = Err 400.
   Proof. exact (header_policy_total V cmp parse). Qed.
+
+  (* 6. ... inside the request pipeline (Pipeline.v): a request the policy
+     refuses — header missing, not visible ASCII, not a version, or newer than
+     the maximum — is answered 400 whatever its path, its method and the
+     table; nothing is looked up and no handler runs.  An endpoint that does
+     run under the header policy runs at the version the header names, inside
+     its own range and not above the maximum.  An unversioned server never
+     looks at the header. *)
+  Theorem C05_pipeline_bad_version_first : forall (p : policy V) (r : node V) m rawpath h c,
+    request_version V cmp parse p h = Err c -> handle V cmp parse p r m rawpath h = HBadVersion.
+  Proof. exact (handle_bad_version_first V cmp parse). Qed.
+
+  Theorem C05_pipeline_bad_version_iff : forall (p : policy V) (r : node V) m rawpath h,
+    handle V cmp parse p r m rawpath h = HBadVersion <-> exists c, request_version V cmp parse p h = Err c.
+  Proof. exact (handle_bad_version_iff V cmp parse). Qed.
+
+  Theorem C05_pipeline_refused_headers : forall max h,
+    (exists c, request_version V cmp parse (PHeader max) h = Err c) <->
+    match h with
+    | HAbsent | HNotAscii => True
+    | HStr s => match parse s with None => True | Some v => vle V cmp v max = false end
+    end.
+  Proof. exact (header_policy_refuses_iff V cmp parse). Qed.
+
+  Theorem C05_pipeline_invoke_version : forall max (eps : list (decl V)) r m rawpath h e vars ov,
+    build V cmp eps = Ok r ->
+    (forall d, In d eps -> wf_range V cmp (e_versions (snd d))) ->
+    handle V cmp parse (PHeader max) r m rawpath h = HInvoke e vars ov ->
+    exists v, ov = Some v /\ vmatches V cmp (e_versions e) (Some v) = true /\ vle V cmp v max = true /\
+              exists s, h = HStr s /\ parse s = Some v.
+  Proof. exact (handle_invoke_version V cmp bot TO parse). Qed.
+
+  Theorem C05_pipeline_unversioned_ignores_header : forall (r : node V) m rawpath h h',
+    handle V cmp parse PUnversioned r m rawpath h = handle V cmp parse PUnversioned r m rawpath h'.
+  Proof. exact (handle_unversioned_ignores_header V cmp parse). Qed.
 End C05.
 
 (* non-vacuity: the hypotheses hold of N.compare with least element 0, and a
@@ -130,3 +165,8 @@ Print Assumptions C05_header_policy_total.
 Print Assumptions C05_semver_total_order.
 Print Assumptions C05_semver_refines_precedence.
 Print Assumptions C05_semver_overlaps_iff_shared.
+Print Assumptions C05_pipeline_bad_version_first.
+Print Assumptions C05_pipeline_bad_version_iff.
+Print Assumptions C05_pipeline_refused_headers.
+Print Assumptions C05_pipeline_invoke_version.
+Print Assumptions C05_pipeline_unversioned_ignores_header.
